@@ -49,3 +49,46 @@ func errLangSeqLine(t []string) string {
 }
 
 func init() { handlers["errlangseq"] = errLangSeqLine }
+
+// errlangglobal <globallang> <vmlang> <hexsrc> : some other part of the host has called the package-level SetParseErrorLanguage; a context
+// configured for <vmlang> still receives its messages in ITS language.  Prints the error text under the foreign global setting and the
+// text with the package setting left at its default (hex; "-" = no error).  The package setting is put back before returning.
+func errLangGlobalLine(t []string) string {
+	if len(t) != 4 {
+		return "bad-op"
+	}
+	gl, e1 := strconv.Atoi(t[1])
+	vl, e2 := strconv.Atoi(t[2])
+	src, ok := unhx(t[3])
+	if e1 != nil || e2 != nil || !ok {
+		return "bad-op"
+	}
+	errText := func() string {
+		return safely(func() string {
+			vm := ds.NewVM()
+			vm.Config.OpCountLimit = 30000
+			vm.Config.ParseErrorLanguage = vl
+			if err := vm.Run(src); err != nil {
+				return hx(err.Error())
+			}
+			return "-"
+		})
+	}
+	ds.SetParseErrorLanguage(gl)
+	a := errText()
+	// the same through a sub-evaluation (RunExpr copies the caller's configuration)
+	a2 := safely(func() string {
+		vm := ds.NewVM()
+		vm.Config.OpCountLimit = 30000
+		vm.Config.ParseErrorLanguage = vl
+		if _, err := vm.RunExpr(src, false); err != nil {
+			return hx(err.Error())
+		}
+		return "-"
+	})
+	ds.SetParseErrorLanguage(ds.ParseErrorLanguageBilingual)
+	b := errText()
+	return a + " || " + a2 + " || " + b
+}
+
+func init() { handlers["errlangglobal"] = errLangGlobalLine }
